@@ -102,7 +102,7 @@ static inline int64_t wrapper_op(uint32_t op, uint64_t v_bits, uint64_t d_bits, 
     case OP_CTOR: *ret = to_bits<T>(static_cast<T>(w)); break;
     case OP_ASSIGN: *ret = to_bits<T>(static_cast<T>(w = d)); break;
     case OP_STORE_LOAD: w.store(d); *ret = to_bits<T>(w.load()); break;
-    case OP_RAW: w.store_raw(static_cast<S>(d_bits)); *ret = static_cast<uint64_t>(w.load_raw()); break;
+    case OP_RAW: w.store_raw(static_cast<S>(d_bits)); *ret = to_bits<S>(w.load_raw()); break;
     case OP_ADD: *ret = to_bits<T>(static_cast<T>(w += d)); break;
     case OP_SUB: *ret = to_bits<T>(static_cast<T>(w -= d)); break;
     case OP_MUL: *ret = to_bits<T>(static_cast<T>(w *= d)); break;
